@@ -139,6 +139,12 @@ SEEDS = {
  "C21-m6": ("C21", "a source file longer than 8192 bytes (line assembled across a buffer refill is never cleared: later rules duplicated or lost)", ["C21"]),
  "C22-m5": ("C22", "a query of arity >= 8 (or nested 3 deep at arity 3) constructed before another query and run after it (8-entry work list in max_var_id underestimates the ids in use)", ["C22"]),
  "C22-m6": ("C22", "about 65 536 query epochs in one process, i.e. 22 000 to 65 535 earlier queries (epoch and stop request packed into 16 bits each)", ["C22"]),
+ "C03-m5": ("C03", "not nested three (or any odd number >= 3) deep ('redundant pairs' dropped one negation at a time)", ["C03"]),
+ "C03-m6": ("C03", "a negated comparison of two different integers beyond 2^53 that round to the same f64 (fast path in the not node compares as f64)", ["C03"]),
+ "C20-m5": ("C20", "an argument nested 3 deep in the same kind of bracket, e.g. f(g(h(a), b)) (one 'closer' slot instead of depth counters in parse_arguments)", ["C20", "C18", "C19"]),
+ "C20-m6": ("C20", "a float of >= 17 significant digits as a list element (one-pass digit accumulation instead of str::parse)", ["C20"]),
+ "C24-m5": ("C24", "a clause with >= 9 variables (raw pointer into a Vec that reallocates on the 9th insert: use after free, Miri only)", ["C24"]),
+ "C24-m6": ("C24", "brackets or parentheses nested >= 9 deep in a rule body (inline 8-slot parse stack written through a raw pointer: out-of-bounds write, Miri only)", ["C24"]),
  "C04-m5": ("C04", "print_list of a list whose bound tail brings in >= 5 further elements (loop bounded by the node count of the outer list plus the set length: output silently cut)", ["C04"]),
  "C04-m6": ("C04", "a print goal with a marker and >= 4 arguments, i.e. two or more values beyond the markers (only one trailing value kept)", ["C04"]),
  "C09-m5": ("C09", "a complex term with >= 5 arguments facing $_ and a fresh variable of the other term at the 5th or a later one (4-slot array of $_ positions filled through zip)", ["C09", "C06"]),
